@@ -324,3 +324,297 @@ def gen_jitlogic(src_dir):
     out.append("Definition gen_jit_scratch : list Z := [%s].   (* RCX, R10, R11, RSP: used by the emitted code itself *)\n"
                % '; '.join(str(consts[r]) for r in ('RCX', 'R10', 'R11', 'RSP')))
     return ''.join(out)
+
+
+# ------------------------------------------------------------------ src/cranelift.rs: the IR of the ALU arms of translate_program
+
+TRAPPING = ('udiv', 'urem')
+UN = ('ineg', 'bswap')
+EXT = ('ireduce', 'uextend', 'sextend')
+
+
+class ArmTr(IrTr):
+    """one arm of translate_program: value of the destination register after the arm (None = not redefined),
+    in the `res` monad because udiv / urem trap on a zero divisor"""
+
+    def __init__(self, toks, consts):
+        IrTr.__init__(self, toks, {})
+        self.consts = consts
+        self.depth = 0
+
+    def cond(self, e):
+        """Rust-level condition on the instruction being compiled"""
+        while e[0] == 'paren':
+            e = e[1]
+        if e[0] == 'bin' and e[1] in ('==', '!='):
+            a, b = self.scal(e[2]), self.scal(e[3])
+            t = '(%s =? %s)' % (a, b)
+            return t if e[1] == '==' else '(negb %s)' % t
+        raise Unsupported("arm condition %s" % show(e)[:60])
+
+    def scal(self, e):
+        while e[0] == 'paren':
+            e = e[1]
+        if e[0] == 'num':
+            return str(e[1])
+        if e[0] == 'field' and show(e[1]) == 'insn' and e[2] in ('imm', 'off', 'dst', 'src'):
+            return '(%s insn)' % e[2]
+        if e[0] == 'as':
+            tn = R.tyname(e[2])
+            m = {'i64': 'I64', 'u64': 'U64', 'i32': 'I32', 'u32': 'U32', 'i16': 'I16', 'u8': 'U8', 'usize': 'USZ'}
+            if tn not in m:
+                raise Unsupported("cast to %s" % tn)
+            return '(cast %s %s)' % (m[tn], self.scal(e[1]))
+        raise Unsupported("arm scalar %s" % show(e)[:60])
+
+    scalar = scal
+
+    def value(self, e):
+        while e[0] == 'paren':
+            e = e[1]
+        if e[0] == 'path' and e[1] in self.env:
+            return self.env[e[1]]
+        if e[0] == 'mcall' and show(e[1]) == 'bcx' and e[2] == 'use_var':
+            a = e[3][0]
+            s = show(a).replace(' ', '').replace('(', '').replace(')', '')
+            if s == 'self.registers[insn.dstasusize]':
+                return 'rdst', 64
+            if s == 'self.registers[insn.srcasusize]':
+                return 'rsrc', 64
+            raise Unsupported("use_var of %s" % s)
+        if e[0] == 'mcall' and show(e[1]) == 'self' and e[3] and show(e[3][0]) == 'bcx':
+            return self.inline_value(e[2], e[3][1:])
+        if e[0] == 'mcall' and e[1][0] == 'mcall' and show(e[1][1]) == 'bcx' and e[1][2] == 'ins':
+            op, args = e[2], e[3]
+            if op == 'iconst':
+                w = self.width(args[0])
+                return '(ir_iconst %d %s)' % (w, self.scal(args[1])), w
+            if op in BIN and op not in TRAPPING:
+                a, wa = self.value(args[0])
+                b, wb = self.value(args[1])
+                return '(ir_%s %d %s %s)' % (op, wa, a, b), wa
+            if op in TRAPPING:
+                a, wa = self.value(args[0])
+                b, wb = self.value(args[1])
+                v = self.fresh('q')
+                self.lets.append((v, '(ir_%s %d %s %s)' % (op, wa, a, b), 'bind'))
+                return v, wa
+            if op in UN:
+                a, wa = self.value(args[0])
+                return '(ir_%s %d %s)' % (op, wa, a), wa
+            if op in EXT:
+                w = self.width(args[0])
+                a, wa = self.value(args[1])
+                return '(ir_%s %d %d %s)' % (op, wa, w, a), w
+            if op == 'icmp':
+                cc = show(args[0])
+                a, wa = self.value(args[1])
+                b, wb = self.value(args[2])
+                return '(ir_icmp %s %d %s %s)' % (CC[cc], wa, a, b), 8
+            if op == 'select':
+                c, _ = self.value(args[0])
+                a, wa = self.value(args[1])
+                b, wb = self.value(args[2])
+                if wa != wb:
+                    raise Unsupported("select on different widths")
+                return '(ir_select %s %s %s)' % (c, a, b), wa
+            raise Unsupported("IR instruction %s" % op)
+        raise Unsupported("IR value %s" % show(e)[:60])
+
+    def method(self, name):
+        sig, body = R.parse_fn(self.toks, name)
+        params = []
+        depth = 0
+        cur = []
+        started = False
+        for t in sig:
+            if t[1] == '(':
+                depth += 1
+                started = True
+                continue
+            if t[1] == ')':
+                depth -= 1
+                if depth == 0:
+                    break
+            if started and depth == 1:
+                if t[1] == ',':
+                    params.append(cur)
+                    cur = []
+                else:
+                    cur.append(t[1])
+        if cur:
+            params.append(cur)
+        names = [p[0] if p[0] not in ('&', 'mut') else p[-1] for p in params]
+        names = [p[p.index(':') - 1] if ':' in p else 'self' for p in params]
+        return names, body
+
+    def inline_value(self, name, args):
+        """self.NAME(bcx, &insn, extra IR values..) used as a value"""
+        self.depth += 1
+        if self.depth > 4:
+            raise Unsupported("helper nesting")
+        names, body = self.method(name)
+        extra = names[3:] if len(names) > 3 else []
+        saved = dict(self.env)
+        for n, a in zip(extra, args[1:]):
+            self.env[n] = self.value(a)
+        r = None
+        for st in body[1]:
+            if st[0] == 'let' and st[1][0] == 'ppath':
+                t, w = self.value(st[3])
+                self.env[st[1][1]] = (t, w)
+            elif st[0] == 'tail':
+                r = self.value(st[1])
+            else:
+                raise Unsupported("helper %s: statement" % name)
+        self.env = saved
+        self.depth -= 1
+        if r is None:
+            raise Unsupported("helper %s has no value" % name)
+        return r
+
+    def set_dst(self, name, args):
+        """self.set_dst / set_dst32 (bcx, &insn, val) -> the value stored in the destination register"""
+        names, body = self.method(name)
+        saved = dict(self.env)
+        self.env[names[3]] = self.value(args[2])
+        out = None
+        for st in body[1]:
+            if st[0] == 'let' and st[1][0] == 'ppath':
+                self.env[st[1][1]] = self.value(st[3])
+            elif st[0] in ('stmt', 'tail') and st[1][0] == 'mcall' and show(st[1][1]) == 'self' and st[1][2].startswith('set_dst'):
+                out = self.set_dst(st[1][2], st[1][3])
+            elif st[0] in ('stmt', 'tail') and st[1][0] == 'mcall' and show(st[1][1]) == 'bcx' and st[1][2] == 'def_var':
+                tgt, val = st[1][3]
+                if show(tgt).replace(' ', '').replace('(', '').replace(')', '') != 'self.registers[insn.dstasusize]':
+                    raise Unsupported("def_var of %s" % show(tgt))
+                out = self.value(val)
+            else:
+                raise Unsupported("%s: statement" % name)
+        self.env = saved
+        if out is None:
+            raise Unsupported("%s defines nothing" % name)
+        return out
+
+    def block_value(self, blk):
+        """{ lets; tail value } -> (term, width) with its own lets wrapped"""
+        saved_env, saved_lets = dict(self.env), self.lets
+        self.lets = []
+        r = None
+        for st in blk[1]:
+            if st[0] == 'let' and st[1][0] == 'ppath':
+                t, w = self.value(st[3])
+                v = self.fresh(st[1][1])
+                self.lets.append((v, t, 'let'))
+                self.env[st[1][1]] = (v, w)
+            elif st[0] == 'tail':
+                r = self.value(st[1])
+            else:
+                raise Unsupported("block used as a value: statement")
+        if r is None:
+            raise Unsupported("block without value")
+        term = self.wrap_res('Ok %s' % r[0])
+        self.env, self.lets = saved_env, saved_lets
+        return term, r[1]
+
+    def wrap_res(self, body):
+        out = body
+        for item in reversed(self.lets):
+            v, t, kind = item
+            if kind == 'bind':
+                out = '(%s <- %s ;; %s)' % (v, t, out)
+            else:
+                out = '(let %s := %s in %s)' % (v, t, out)
+        return out
+
+    def stmts(self, sts):
+        """-> term of type res (option Z)"""
+        if not sts:
+            return self.wrap_res('Ok None')
+        st, rest = sts[0], sts[1:]
+        if st[0] == 'let' and st[1][0] == 'ppath':
+            e = st[3]
+            if e[0] == 'if':
+                c = self.cond(e[1])
+                a, wa = self.block_value(e[2])
+                b, wb = self.block_value(e[3])
+                if wa != wb:
+                    raise Unsupported("if branches of different widths")
+                v = self.fresh(st[1][1])
+                self.lets.append((v, '(if %s then %s else %s)' % (c, a, b), 'bind'))
+                self.env[st[1][1]] = (v, wa)
+            else:
+                t, w = self.value(e)
+                v = self.fresh(st[1][1])
+                self.lets.append((v, t, 'let'))
+                self.env[st[1][1]] = (v, w)
+            return self.stmts(rest)
+        if st[0] in ('stmt', 'tail'):
+            e = st[1]
+            if e[0] == 'mcall' and show(e[1]) == 'self' and e[2].startswith('set_dst'):
+                if rest:
+                    raise Unsupported("statements after set_dst")
+                t, w = self.set_dst(e[2], e[3])
+                if w != 64:
+                    raise Unsupported("destination register defined with a %d-bit value" % w)
+                return self.wrap_res('Ok (Some %s)' % t)
+            if e[0] == 'mcall' and show(e[1]) == 'bcx' and e[2] == 'def_var':
+                tgt, val = e[3]
+                if show(tgt).replace(' ', '').replace('(', '').replace(')', '') != 'self.registers[insn.dstasusize]' or rest:
+                    raise Unsupported("def_var of %s" % show(tgt))
+                t, w = self.value(val)
+                if w != 64:
+                    raise Unsupported("destination register defined with a %d-bit value" % w)
+                return self.wrap_res('Ok (Some %s)' % t)
+            if e[0] == 'if':
+                c = self.cond(e[1])
+                saved_env, saved_lets = dict(self.env), self.lets
+                self.lets = []
+                a = self.stmts(list(e[2][1]) + rest)
+                self.env, self.lets = dict(saved_env), []
+                b = self.stmts((list(e[3][1]) if e[3] is not None else []) + rest)
+                self.env, self.lets = saved_env, saved_lets
+                return self.wrap_res('(if %s then %s else %s)' % (c, a, b))
+        raise Unsupported("arm statement at line %s" % (st[2] if st[0] != 'let' else st[4]))
+
+
+def gen_clalu(src_dir):
+    env, _ = U.read_consts(src_dir)
+    toks = U.load(src_dir, 'cranelift.rs')
+    out = [U.HDR % 'src/cranelift.rs (translate_program: the IR of every ALU arm except the byte swaps)',
+           "From RbpfV Require Import Ebpf ClirSem.\nFrom RbpfV.gen Require Import Opcodes.\n\n"]
+    _, fbody = R.parse_fn(toks, 'translate_program')
+    arms = []
+
+    def walk(e):
+        if isinstance(e, tuple) and e and e[0] == 'match' and show(e[1]) == 'insn.opc' and len(e[2]) > 50:
+            arms.extend(e[2])
+            return
+        if isinstance(e, (tuple, list)):
+            for x in e:
+                walk(x)
+    walk(fbody)
+    names = []
+    for pat, guard, body, ln, attrs in arms:
+        if pat[0] != 'ppath':
+            continue
+        n = pat[1].split('::')[-1]
+        if n not in env:
+            continue
+        o = env[n][1]
+        if (o & 7) not in (4, 7) or n in ('LE', 'BE'):
+            continue
+        if guard is not None:
+            raise Unsupported("guard on ALU arm %s" % n)
+        tr = ArmTr(toks, env)
+        blk = body if body[0] == 'block' else ('block', [('tail', body, ln, [])])
+        term = tr.stmts(list(blk[1]))
+        out.append("Definition gen_cl_arm_%s (insn : insn) (rdst rsrc : Z) : res (option Z) :=\n  %s.\n\n" % (n, term))
+        names.append(n)
+    if len(names) < 50:
+        raise Unsupported("only %d ALU arms recognised" % len(names))
+    chain = 'Err 0'
+    for n in reversed(names):
+        chain = 'if sel_ =? %s then gen_cl_arm_%s insn rdst rsrc else\n  %s' % (n, n, chain)
+    out.append("Definition gen_cl_alu (sel_ : Z) (insn : insn) (rdst rsrc : Z) : res (option Z) :=\n  %s.\n" % chain)
+    return ''.join(out)
